@@ -33,6 +33,11 @@ class P:
         raise NotImplementedError
 
 
+def wf_val(v: z3.ExprRef) -> z3.ExprRef:
+    """representation invariant of Val terms: float kind in 0..3, non-finite floats carry payload 0"""
+    return z3.Implies(V.is_VFloat(v), z3.And(V.Val.fk(v) >= 0, V.Val.fk(v) <= 3, z3.Implies(V.Val.fk(v) != 0, V.Val.fv(v) == 0)))
+
+
 class AnyVal(P):
     """Any scalar or opaque object: the universal Val sort. `objs`: classes an object-valued model
     may be concretised to (class name -> factory)."""
@@ -42,6 +47,7 @@ class AnyVal(P):
 
     def make(self, I, name):
         v = z3.Const(name, V.Val)
+        I.base_assumptions.append(wf_val(v))
         return v
 
     def concrete(self, m, sym, ctx):
